@@ -78,9 +78,71 @@ func (m *SolModel) valsetVal(set []*bridgetypes.BridgeValidator) AbiVal {
 	return arr
 }
 
+// SnapshotDigestMonitor: every attestation snapshot the chain creates (at aggregation and on MsgRequestAttestations) is keyed
+// by the digest validators sign; that key must be what the contract computes from the fields the chain serves for it.
+type SnapshotDigestMonitor struct{ model *SolModel }
+
+func (SnapshotDigestMonitor) Pre(w *World) interface{} {
+	old := map[string]bool{}
+	_ = w.App.BridgeKeeper.AttestSnapshotDataMap.Walk(w.Ctx, nil, func(k []byte, _ bridgetypes.AttestationSnapshotData) (bool, error) {
+		old[string(k)] = true
+		return false, nil
+	})
+	return old
+}
+
+func (m SnapshotDigestMonitor) Post(e *Explorer, before, w *World, pre interface{}, ev *Event, out Outcome) {
+	if out.Kind == "tx-rej" || out.Kind == "halt" {
+		return
+	}
+	old := pre.(map[string]bool)
+	aggs := w.Aggregates()
+	_ = w.App.BridgeKeeper.AttestSnapshotDataMap.Walk(w.Ctx, nil, func(k []byte, d bridgetypes.AttestationSnapshotData) (bool, error) {
+		if old[string(k)] {
+			return false, nil
+		}
+		e.RC.Count("chain_snapshots_checked", 1)
+		var agg *AggKV
+		for i := range aggs {
+			if bytes.Equal(aggs[i].QueryId, d.QueryId) && aggs[i].Ts == d.Timestamp {
+				agg = &aggs[i]
+			}
+		}
+		if agg == nil {
+			e.Violate(w, "snapshot-without-aggregate", "encoding|snapshot-without-aggregate", fmt.Sprintf("attestation snapshot for %x.. at %d has no aggregate (after %s)", d.QueryId[:4], d.Timestamp, ev.Label))
+			return false, nil
+		}
+		val, err := hex.DecodeString(strings.TrimPrefix(strings.TrimPrefix(agg.Agg.AggregateValue, "0x"), "0X"))
+		if err != nil {
+			return false, nil // not a byte string the contract could receive
+		}
+		want := RefKeccak256(AbiEncode(m.model.bind(m.model.DigestArgs, map[string]AbiVal{
+			"_attestData.queryId": {Bytes: d.QueryId}, "_attestData.report.value": {Bytes: val},
+			"_attestData.report.timestamp": {Int: u64(d.Timestamp)}, "_attestData.report.aggregatePower": {Int: u64(agg.Agg.ReporterPower)},
+			"_attestData.report.previousTimestamp": {Int: u64(d.PrevReportTimestamp)}, "_attestData.report.nextTimestamp": {Int: u64(d.NextReportTimestamp)},
+			"lastValidatorSetCheckpoint": {Bytes: d.ValidatorCheckpoint}, "_attestData.attestationTimestamp": {Int: u64(d.AttestationTimestamp)}})...))
+		if !bytes.Equal(k, want) {
+			cls := "at-aggregation"
+			if d.AttestationTimestamp != d.Timestamp {
+				cls = "later-request"
+			}
+			e.Violate(w, "chain-snapshot-digest|"+cls, "encoding|chain-snapshot-digest|"+cls,
+				fmt.Sprintf("snapshot %x of %x.. (report ts %d, attestation ts %d) is not the contract digest %x of the served fields (after %s)", k, d.QueryId[:4], d.Timestamp, d.AttestationTimestamp, want, ev.Label))
+		}
+		return false, nil
+	})
+}
+
 func checkC15(rc *RunCtx) {
-	model := LoadSolModel("/repo/evm/contracts")
+	model := LoadSolModel(RepoDir() + "/evm/contracts")
 	rc.Sample(map[string]interface{}{"contract_model": model.String()})
+	// stateful part: the digests the chain itself produces along the shared skeletons (+ deviations)
+	if rc.Replay == nil || rc.Replay.Scenario != "enc" {
+		runSkeletons(rc, []Monitor{SnapshotDigestMonitor{model: model}}, kOf(rc), "round", "bridge", "deposit-closing", "dispute-sibling")
+		if rc.Replay != nil {
+			return
+		}
+	}
 	w := NewWorld(Config{})
 	StdSetup(w, false)
 	bk := w.App.BridgeKeeper
